@@ -10,13 +10,22 @@
 // a RAII guard LOCAL (lc/ld).  Native driver steps (Setup, Create, RootStart, DropObj, Resolve, Finish)
 // are executed one by one; the internal actions of the specification were merged into them.
 //
-// header: {"alloc":"new"|"count", "other":bool}   other: promises are resolved on a fresh thread
+// Result types: int, void and Tracked ("trk"): an owning object (heap buffer, 48 bytes) that counts the copies it went
+// through and marks moved-from sources; every party looks at the object it receives BY REFERENCE (or, for join(),
+// at the returned prvalue) and reports its copy count and moved-from flag; "pay" is the global account of
+// tracked objects (alive, copies made anywhere, destructions of something that is not alive).
+//
+// header: {"alloc":"new"|"count", "other":bool, "obs":"alloc"?}   other: promises are resolved on a fresh thread;
+//   obs=alloc adds "la": operator new calls made inside the driver steps that are neither a coroutine frame nor
+//   the construction of a payload from its id by a body / by native code (= allocations of the library itself,
+//   including copies of a payload it makes)
 // label : Setup(i) | Create | RootStart | DropObj | Resolve(k,"val"|"exc"|"canceled") | Finish
 // projection after every step:
 //   {"P":program text, "blocked":bool, "chk":"ok"|<failed replayer-side check>,
 //    "c":[per coroutine {"bind":"gone"|"null"|"root"|"loc"|"other","cnt":{ac,ad,end,lc,ld,run},
 //                        "fut":{st,v},"obj":"none"|"holds"|"empty","seen":{st,v}}],
-//    "cb":{sub,n,alive} callback awaiter subscribed by native code on its future,
+//    "pay":{live,copies,dbl}; seen and cb additionally carry cp (copies of the received object) and mf (moved-from),
+//    "cb":{sub,n,alive,cp,mf} callback awaiter subscribed by native code on its future,
 //    "ev":[[c,tag]...], "ext":[state...], "live":frames alive (allocation balance), "ret":{st,v}}
 // join() is executed on a thread managed by the controlled scheduler (cocls_verif/vsched.h): when the
 // body suspends, that thread blocks in sync_awaiter and the scenario continues on the controller thread
@@ -97,7 +106,68 @@ static const char *st_name(int s) {
     static const char *n[] = {"none", "pending", "val", "exc", "canceled", "true", "false", "other"};
     return n[s];
 }
-struct Res { int st = S_NONE; int v = 0; };
+struct Res { int st = S_NONE; int v = 0; int cp = 0; bool mf = false; };
+
+// ---- tracked payload ---------------------------------------------------------------------------------
+struct Tracked {
+    static constexpr unsigned ALIVE = 0x600dcafe, DEAD = 0xdeadbeef;
+    static inline int live = 0, copies_total = 0, dbl = 0, id_ctors = 0, bufs = 0;
+    static void reset() { live = 0; copies_total = 0; dbl = 0; id_ctors = 0; bufs = 0; }
+    static char *get() { bufs++; return new char[24]; }
+    static void put(char *b) { if (b) { bufs--; delete[] b; } }
+    int id;
+    int copies = 0;          // copy constructions / assignments in the history of this object
+    bool moved_from = false;
+    long pad[3] = {1, 2, 3};
+    char *buf;               // owned: a copy allocates, a move steals
+    unsigned magic = ALIVE;
+    explicit Tracked(int id_) : id(id_), buf(get()) { live++; id_ctors++; memset(buf, 'x', 24); }
+    Tracked(const Tracked &o) : id(o.id), copies(o.copies + 1), moved_from(o.moved_from), buf(o.buf ? get() : nullptr) {
+        if (buf) memcpy(buf, o.buf, 24);
+        live++; copies_total++;
+    }
+    Tracked(Tracked &&o) noexcept : id(o.id), copies(o.copies), moved_from(o.moved_from), buf(o.buf) {
+        o.buf = nullptr; o.moved_from = true; live++;
+    }
+    Tracked &operator=(const Tracked &o) {
+        if (this != &o) {
+            put(buf);
+            id = o.id; copies = o.copies + 1; moved_from = o.moved_from;
+            buf = o.buf ? get() : nullptr;
+            if (buf) memcpy(buf, o.buf, 24);
+            copies_total++;
+        }
+        return *this;
+    }
+    Tracked &operator=(Tracked &&o) noexcept {
+        if (this != &o) {
+            put(buf);
+            id = o.id; copies = o.copies; moved_from = o.moved_from; buf = o.buf;
+            o.buf = nullptr; o.moved_from = true;
+        }
+        return *this;
+    }
+    ~Tracked() {
+        if (magic != ALIVE) { dbl++; return; }
+        magic = DEAD;
+        live--;
+        put(buf);
+        buf = nullptr;
+    }
+};
+static_assert(sizeof(Tracked) > sizeof(void *) && !std::is_trivially_copyable_v<Tracked>);
+
+// payload traits: how a result is made from its id and what a party reads off the object it received
+template <typename T> struct PT {
+    static T make(int id) { return T(id); }
+    static Res val(const T &x) { return Res{S_VAL, (int) x, 0, false}; }
+};
+template <> struct PT<Tracked> {
+    static Tracked make(int id) { return Tracked(id); }
+    static Res val(const Tracked &x) { return Res{S_VAL, x.id, x.copies, x.moved_from}; }
+};
+// the external futures carry no payload of interest
+template <typename T> using ExtT = std::conditional_t<std::is_same_v<T, Tracked>, int, T>;
 
 struct CoStat {
     int run = 0, end = 0, lc = 0, ld = 0, ac = 0, ad = 0;
@@ -146,6 +216,7 @@ struct CountStore {
     }
 };
 
+static long alloc_news() { return alloc_stats::g_news.load(); }
 static long alloc_balance() { return alloc_stats::g_news.load() - alloc_stats::g_deletes.load(); }
 static void warm_thread() { (void) cocls::coro_queue::queue_impl::instance._queue.size(); }
 
@@ -169,7 +240,10 @@ static Res fut_state(cocls::future<T> &f) {
     if (!f.ready()) { r.st = S_PENDING; return r; }
     using S = cocls::future_common::State;
     auto st = f.*FProbe<T>::state_mp();
-    if (st == S::value) { r.st = S_VAL; r.v = std::is_void_v<T> ? 0 : (int) (f.*FProbe<T>::value_mp()); }
+    if (st == S::value) {
+        if constexpr (std::is_void_v<T>) r.st = S_VAL;
+        else r = PT<T>::val(f.*FProbe<T>::value_mp());     // by reference
+    }
     else if (st == S::exception) {
         r.st = S_EXC;
         try { std::rethrow_exception(f.*FProbe<T>::exc_mp()); }
@@ -187,6 +261,8 @@ struct CbAwaiter : cocls::awaiter {
     int n = 0;
     int alive = -1;                 // -1 not fired; 1 / 0: frame of coroutine 1 existed / did not exist when fired
     bool (*alive_fn)(void *) = nullptr;
+    Res (*obs_fn)(void *) = nullptr;   // what the callback reads off the future (by reference)
+    Res obs;
     void *ctx = nullptr;
     CbAwaiter() { set_resume_fn(&CbAwaiter::fire, this); }
     static cocls::suspend_point<void> fire(cocls::awaiter *me, void *) noexcept {
@@ -194,6 +270,7 @@ struct CbAwaiter : cocls::awaiter {
         self->n++;
         self->sub = false;
         self->alive = self->alive_fn(self->ctx) ? 1 : 0;
+        self->obs = self->obs_fn(self->ctx);
         return {};
     }
 };
@@ -237,10 +314,11 @@ struct World {
     AProbe<T> *objp[MAXC + 1] = {};
     cocls::future<T> *locf[MAXC + 1] = {};
     // external futures
-    alignas(cocls::future<T>) unsigned char extbuf[MAXK + 1][sizeof(cocls::future<T>)];
-    cocls::future<T> *extf[MAXK + 1] = {};
+    using E = ExtT<T>;
+    alignas(cocls::future<E>) unsigned char extbuf[MAXK + 1][sizeof(cocls::future<E>)];
+    cocls::future<E> *extf[MAXK + 1] = {};
     int ext_final[MAXK + 1] = {};   // state of an external future at the time native code destroyed it
-    std::optional<cocls::promise<T>> extp[MAXK + 1];
+    std::optional<cocls::promise<E>> extp[MAXK + 1];
     // root
     std::optional<AProbe<T>> rootobj;
     alignas(cocls::future<T>) unsigned char rootbuf[sizeof(cocls::future<T>)];
@@ -249,6 +327,8 @@ struct World {
     CbAwaiter cbaw;
     // accounting
     long base = 0, adj = 0, adj_before_join = 0;
+    long step_news = 0, adj_news = 0;   // operator new calls inside driver steps / of them harness infrastructure
+    bool obs_alloc = false;
     std::string chk = "ok";
     // join thread
     std::unique_ptr<vsched> sched;
@@ -256,10 +336,18 @@ struct World {
     bool blocked = false;
 
     struct Infra {   // harness infrastructure allocations are not library allocations
-        World &w; long b0;
-        explicit Infra(World &w_) : w(w_), b0(alloc_balance()) {}
-        ~Infra() { w.adj += alloc_balance() - b0; }
+        World &w; long b0, n0;
+        explicit Infra(World &w_) : w(w_), b0(alloc_balance()), n0(alloc_news()) {}
+        ~Infra() { w.adj += alloc_balance() - b0; w.adj_news += alloc_news() - n0; }
     };
+    // library code on a fresh thread: the thread's own bookkeeping (thread state, its ready deque) is released by the
+    // time join() returns and its operator new calls are not the library's
+    template <typename F> void on_fresh_thread(F &&f) {
+        long n0 = alloc_news(), lib = 0;
+        std::thread th([&] { warm_thread(); long a = alloc_news(); f(); lib = alloc_news() - a; });
+        th.join();
+        adj_news += (alloc_news() - n0) - lib;
+    }
 
     cocls::async<T> make(int c) {
         if (counting) {
@@ -275,12 +363,16 @@ struct World {
     // ---- driver steps ----
     void setup() {
         g_stats = &st;
+        Tracked::reset();
         warm_thread();
+        // a fresh ready deque: its cursor is far from a node boundary (crossing one costs an operator new)
+        std::deque<std::coroutine_handle<>>().swap(cocls::coro_queue::queue_impl::instance._queue);
         for (int k = 1; k <= prog.K; k++) {
-            extf[k] = new (extbuf[k]) cocls::future<T>();
+            extf[k] = new (extbuf[k]) cocls::future<E>();
             extp[k].emplace(extf[k]->get_promise());
         }
         base = alloc_balance();
+        step_news = 0; adj_news = 0;   // (run_typed adds this step's own window afterwards: see there)
     }
     void create() {
         rootobj.emplace(make(1));
@@ -290,7 +382,7 @@ struct World {
     void do_join() {
         try {
             if constexpr (std::is_void_v<T>) { rootobj->join(); ret = Res{S_VAL, 0}; }
-            else { int v = rootobj->join(); ret = Res{S_VAL, v}; }
+            else { T v = rootobj->join(); ret = PT<T>::val(v); }   // the returned prvalue itself (no copy, no move)
         } catch (const TestExc &e) { ret = Res{S_EXC, e.code}; }
         catch (const cocls::await_canceled_exception &) { ret = Res{S_EXC, 200}; }
         catch (...) { ret = Res{S_OTHER, 0}; }
@@ -299,16 +391,19 @@ struct World {
     void run_join_thread() {
         while (sched->enabled(jt)) sched->step(jt);
         if (sched->done(jt)) {
+            long n0 = alloc_news();
             sched->join_all();
             sched->uninstall();
             sched.reset();
             adj = adj_before_join;   // thread, its ready deque and the scheduler are gone: no infrastructure left
+            adj_news += alloc_news() - n0;
             blocked = false;
         } else blocked = true;
     }
     void subscribe_cb() {
         cbaw.ctx = this;
         cbaw.alive_fn = [](void *c) { return static_cast<World *>(c)->frame_alive(1); };
+        cbaw.obs_fn = [](void *c) { return fut_state(*static_cast<World *>(c)->rootf); };
         if (rootf->subscribe(&cbaw)) cbaw.sub = true;
     }
     void root_start() {
@@ -328,8 +423,7 @@ struct World {
                 auto closure = [fn = cocls::async<T>(std::move(*rootobj)), promise = std::move(promise)]() mutable {
                     fn.start(promise);
                 };
-                std::thread th([c = std::move(closure)]() mutable { c(); });
-                th.join();
+                on_fresh_thread([&] { closure(); });
             });
             subscribe_cb();
         } else if (m == "retfut") {
@@ -339,7 +433,7 @@ struct World {
             rootf = new (rootbuf) cocls::future<T>();
             cocls::promise<T> p = rootf->get_promise();
             if (m == "claimed") {
-                if constexpr (std::is_void_v<T>) p(); else p(77);
+                if constexpr (std::is_void_v<T>) p(); else p(PT<T>::make(77));
             }
             bool r = rootobj->start(p);
             ret = Res{r ? S_TRUE : S_FALSE, 0};
@@ -357,8 +451,8 @@ struct World {
         }
     }
     void resolve_here(int k, const std::string &how) {
-        cocls::promise<T> &p = *extp[k];
-        if (how == "val") { if constexpr (std::is_void_v<T>) p(); else p(5); }
+        cocls::promise<E> &p = *extp[k];
+        if (how == "val") { if constexpr (std::is_void_v<E>) p(); else p(5); }
         else if (how == "exc") p(std::make_exception_ptr(TestExc(100 + k)));
         else p(cocls::drop);
     }
@@ -366,8 +460,7 @@ struct World {
         if (other) {
             // thread bookkeeping (thread state, the thread's own ready deque) is released by the time join()
             // returns; what remains in the balance is what the library code on that thread allocated / freed
-            std::thread th([&] { resolve_here(k, how); });
-            th.join();
+            on_fresh_thread([&] { resolve_here(k, how); });
         } else resolve_here(k, how);
         if (sched) run_join_thread();
     }
@@ -398,10 +491,19 @@ struct World {
         return "other";
     }
     long live() {
-        long n = alloc_balance() - base - adj;
+        long n = alloc_balance() - base - adj - Tracked::bufs;   // payload buffers are not frames
         for (int c = 1; c <= prog.N(); c++) n += st.co[c].sa - st.co[c].sd;
         return n;
     }
+    // operator new calls of the library itself: everything inside the driver steps that is neither harness
+    // infrastructure, nor a coroutine frame (one call per frame not placed by the counting storage), nor the buffer
+    // of a payload constructed from its id (by a body or by native code)
+    long lib_news() {
+        long n = step_news - adj_news - Tracked::id_ctors;
+        for (int c = 1; c <= prog.N(); c++) if (!st.co[c].via_store) n -= st.co[c].ac;
+        return n;
+    }
+    static J seen_j(const Res &r) { J m = res_j(r); m.set("cp", r.cp); m.set("mf", r.mf); return m; }
     static J res_j(const Res &r) { J m = J::map(); m.set("st", st_name(r.st)); m.set("v", r.v); return m; }
     J project() {
         const long live_now = live();   // before the projection itself allocates
@@ -432,13 +534,18 @@ struct World {
             else if (locf[c]) fr = fut_state(*locf[c]);
             o.set("fut", res_j(fr));
             o.set("obj", !objp[c] ? "none" : objp[c]->holds() ? "holds" : "empty");
-            o.set("seen", res_j(s.seen));
+            o.set("seen", seen_j(s.seen));
             cl.push(o);
         }
         m.set("c", cl);
         J cbj = J::map();
         cbj.set("sub", cbaw.sub); cbj.set("n", cbaw.n); cbj.set("alive", cbaw.alive < 0 ? "none" : cbaw.alive ? "true" : "false");
+        cbj.set("cp", cbaw.obs.cp); cbj.set("mf", cbaw.obs.mf);
         m.set("cb", cbj);
+        J pay = J::map();
+        pay.set("live", Tracked::live); pay.set("copies", Tracked::copies_total); pay.set("dbl", Tracked::dbl);
+        m.set("pay", pay);
+        if (obs_alloc) m.set("la", lib_news());
         J ev = J::list();
         for (int i = 0; i < st.nev; i++) { J e = J::list(); e.push(st.ev_c[i]); e.push(std::string(1, st.ev_t[i])); ev.push(e); }
         m.set("ev", ev);
@@ -469,9 +576,13 @@ struct RegFut {
 // co_await EXPR, record what this (awaiting) coroutine observed of child ch
 #define OBSERVE(EXPR) \
     try { \
-        int v_ = 0; \
-        if constexpr (std::is_void_v<T>) { co_await EXPR; } else { v_ = co_await EXPR; } \
-        w.st.co[ch].seen = Res{S_VAL, v_}; w.st.co[c].acc = v_; \
+        if constexpr (std::is_void_v<T>) { co_await EXPR; w.st.co[ch].seen = Res{S_VAL, 0}; w.st.co[c].acc = 0; } \
+        else { \
+            /* the reference returned by await_resume is looked at inside the full expression (the awaited future may \
+               be a temporary); nothing is copied by the party */ \
+            w.st.co[ch].seen = PT<T>::val(co_await EXPR); \
+            w.st.co[c].acc = w.st.co[ch].seen.v; \
+        } \
     } catch (const TestExc &e_) { w.st.co[ch].seen = Res{S_EXC, e_.code}; } \
     catch (const cocls::await_canceled_exception &) { w.st.co[ch].seen = Res{S_EXC, 200}; } \
     w.st.log(c, 'o');
@@ -534,7 +645,13 @@ struct RegFut {
             } break; \
             case K_RET: { \
                 w.st.co[c].end++; w.st.log(c, 'e'); \
-                if constexpr (std::is_void_v<T>) co_return; else co_return c + 10 * w.st.co[c].acc; \
+                if constexpr (std::is_void_v<T>) co_return; \
+                else { \
+                    const int id_ = c + 10 * w.st.co[c].acc; \
+                    if (s_.a == 1) { T v_ = PT<T>::make(id_); co_return v_; }                      /* co_return variable */ \
+                    else if (s_.a == 2) { T v_ = PT<T>::make(id_); co_return std::move(v_); }      /* std::move(variable) */ \
+                    else co_return PT<T>::make(id_);                                               /* temporary */ \
+                } \
             } \
             case K_THR: { \
                 w.st.co[c].end++; w.st.log(c, 'e'); \
@@ -544,7 +661,7 @@ struct RegFut {
         } \
     } \
     w.fail("body without ret/thr"); \
-    if constexpr (std::is_void_v<T>) co_return; else co_return -1;
+    if constexpr (std::is_void_v<T>) co_return; else co_return PT<T>::make(-1);
 
 template <typename T>
 cocls::async<T> body_new(World<T> &w, int c, Guard<T> g) { BODY_IMPL }
@@ -562,9 +679,11 @@ static void run_typed(const Scenario &sc, Reporter &rep, const Program &prog) {
     w->prog = prog;
     w->counting = sc.hdr.at("alloc").as_str("new") == "count";
     w->other = sc.hdr.at("other").as_bool(false);
+    w->obs_alloc = sc.hdr.at("obs").as_str("") == "alloc";
     bool ok = true, finished = false;
     for (std::size_t k = 0; k < sc.steps.size() && ok; k++) {
         const Step &s = sc.steps[k];
+        const long n0 = alloc_news();
         if (s.name == "Setup") w->setup();
         else if (s.name == "Create") w->create();
         else if (s.name == "RootStart") w->root_start();
@@ -572,6 +691,7 @@ static void run_typed(const Scenario &sc, Reporter &rep, const Program &prog) {
         else if (s.name == "Resolve") w->resolve(s.iarg(0), s.sarg(1));
         else if (s.name == "Finish") { w->finish(); finished = true; }
         else { rep.error(k, "unknown action"); ok = false; break; }
+        if (s.name != "Setup") w->step_news += alloc_news() - n0;
         if (!rep.check(k, w->project())) ok = false;
     }
     if (ok && finished && w->chk == "ok" && !w->sched) {
@@ -595,6 +715,7 @@ static void run(const Scenario &sc, Reporter &rep) {
         return;
     }
     if (prog.T == "void") run_typed<void>(sc, rep, prog);
+    else if (prog.T == "trk") run_typed<Tracked>(sc, rep, prog);
     else run_typed<int>(sc, rep, prog);
 }
 
